@@ -377,3 +377,31 @@ Proof.
   - destruct (existsb (Nat.eqb id') (bs_nodes s)); simpl in H; [|left; assumption].
     destruct H as [H|H]; [subst; right; left; reflexivity|left; assumption].
 Qed.
+
+(* ------------------------------------------------------------------ connection-level failures are counted *)
+Section ConnFail.
+  Variables S C B : Type.
+  Variable exec : S -> C -> string -> list val -> S * (val * err).
+  Variable repr : val -> string.
+  Variable accept : B -> bool * B.
+  Variable mark : B -> bool -> B.
+
+  Lemma run_cmd_failure c b b1 st ctx args :
+    r_wrapped c = true -> r_nil c <> AllErrSwallowed ->
+    guard_holds (r_guard c) args = false -> node_ok c args -> accept b = (true, b1) ->
+    let raw := exec st ctx (r_cmd c) (place args (r_args c)) in
+    acceptable (snd (snd raw)) = false ->
+    exists v, run_cmd exec repr accept mark ENone c b st ctx args =
+              ((mark b1 false, fst raw), (v, snd (snd raw)), Some false).
+  Proof.
+    intros Hw Hn Hg Hno Ha raw He. unfold run_cmd. rewrite Hw, Ha. unfold body. rewrite Hg.
+    assert (E : match r_node c with
+                | NodeGetRedis => ENone
+                | NodeParam i => match nth i args VBad with VNilI => EOther "ErrNilNode" | _ => ENone end
+                end = ENone).
+    { unfold node_ok in Hno. destruct (r_node c); [reflexivity|]. destruct (nth i args VBad); try reflexivity. congruence. }
+    rewrite E. fold raw. destruct raw as [st' [v e]]. simpl in *.
+    unfold tail. destruct e; simpl in He; try discriminate;
+      destruct (r_nil c); try congruence; simpl; eauto.
+  Qed.
+End ConnFail.
